@@ -11,7 +11,7 @@ ALPH = ["a", "'", "\\", " ", "\xe9", "λ", "\U0001d11e", "1"]
 FLOATS = [0.5, 1.0, 1e22, 5e-324]
 NSHAPES = 6
 NKINDS = 4
-NEDITS = 8
+NEDITS = 11
 
 
 def leaf_value(kind, ci, s0, s1, sn):
@@ -126,9 +126,31 @@ def edit(q, c, kind):
                 n.attr = n.attr + "x"
                 return True
         return False
-    # kind 7: the outer operator's name
-    q.func.id = "SelectMany"
-    return True
+    if kind == 7:     # the outer operator's name
+        q.func.id = "SelectMany"
+        return True
+    if kind == 8:     # letter case of an attribute name
+        for n in ast.walk(q):
+            if isinstance(n, ast.Attribute):
+                n.attr = n.attr.swapcase()
+                return True
+        return False
+    if kind == 9:     # a number and the string of its digits / a string with a trailing blank
+        if isinstance(c, bool):
+            leafn.value = str(c)
+        elif isinstance(c, (int, float)):
+            leafn.value = repr(c)
+        else:
+            leafn.value = c + " "
+        return True
+    # kind 10: which of two arguments carries the keyword (positional vs keyword argument)
+    for n in ast.walk(q):
+        if isinstance(n, ast.Call) and n.keywords and n.args:
+            kw = n.keywords[0]
+            n.keywords = [ast.keyword(kw.arg, n.args[-1])]
+            n.args = n.args[:-1] + [kw.value]
+            return True
+    return False
 
 
 def same(a, b):
@@ -145,7 +167,7 @@ def c20(code: int, ci: int, s0: int, s1: int, sn: int, rel: int, ek: int, bn: in
     """
     pre: LO <= code < HI and 0 <= code < 24
     pre: 0 <= ci <= 4 and 0 <= s0 < 8 and 0 <= s1 < 8 and 0 <= sn <= 1
-    pre: 0 <= rel <= 4 and 0 <= ek < 8 and 0 <= bn <= 1
+    pre: 0 <= rel <= 4 and 0 <= ek < 11 and 0 <= bn <= 1
     post: (_ == '') != TWIN
     """
     return body(code, ci, s0, s1, sn, rel, ek, bn)
@@ -155,7 +177,7 @@ def c20t(code: int, ci: int, s0: int, s1: int, sn: int, rel: int, ek: int, bn: i
     """
     pre: LO <= code < HI and 0 <= code < 24
     pre: 0 <= ci <= 4 and 0 <= s0 < 8 and 0 <= s1 < 8 and 0 <= sn <= 2
-    pre: 0 <= rel <= 4 and 0 <= ek < 8 and 0 <= bn <= 1
+    pre: 0 <= rel <= 4 and 0 <= ek < 11 and 0 <= bn <= 1
     post: (_ == '') != TWIN
     """
     return body(code, ci, s0, s1, sn, rel, ek, bn)
@@ -173,7 +195,7 @@ def body(code, ci, s0, s1, sn, rel, ek, bn):
         ci = pick(ci, 0, 5)
         s0 = s1 = sn = 0
     rel = pick(rel, 0, 5)
-    ek = pick(ek, 0, 8) if rel >= 3 else 0
+    ek = pick(ek, 0, NEDITS) if rel >= 3 else 0
     bn = pick(bn, 0, 2) if rel == 0 else 0
     c = leaf_value(kind, ci, s0, s1, sn)
     with nt():
